@@ -109,7 +109,9 @@ func (h *c25Harness) newAction(wi int, typ WalletActionType, outcome error) *c25
 // for good. That is a violation ("actions for different wallets do not block
 // each other", "available again as soon as its action ends"), not a timeout.
 
-const c25Patience = 200 * time.Millisecond
+// c25Patience: how long an interaction may take before the goroutines are
+// consulted (VERIF_C25_PATIENCE_US forces that path to test the harness itself).
+var c25Patience = time.Duration(verifkit.EnvInt("VERIF_C25_PATIENCE_US", 200_000)) * time.Microsecond
 
 // c25DispatchGoroutines classifies (waiters, executing, inTransit) the goroutines that
 // are inside walletDispatcher.dispatch frames.
